@@ -183,7 +183,26 @@ ExactOK ==
                     /\ (p.rule = "fint4" => (p.b < p.c \/ p.d < p.a))
 
 -----------------------------------------------------------------------------
-(* Group actions used by C12 and split kinds used by C11 preserve the dyadic structure *)
+(* Group actions used by C12: exchange of the space intervals, common time shift, rotation of a
+   closed curve by s grid units (a symmetry when s is a multiple of the side length of a square /
+   any s on the circle), reflection x -> L - x.  A moved interval that would straddle the seam is
+   not an element (the harness only moves pairs whose images are elements). *)
+Exchange(te, tr) == <<[te EXCEPT !.x0 = tr.x0, !.x1 = tr.x1], [tr EXCEPT !.x0 = te.x0, !.x1 = te.x1]>>
+ShiftT(e, s) == [e EXCEPT !.t0 = e.t0 + s, !.t1 = e.t1 + s]
+RotX(e, s) == LET a == (e.x0 + s) % L IN [e EXCEPT !.x0 = a, !.x1 = a + (e.x1 - e.x0)]
+ReflX(e) == [e EXCEPT !.x0 = L - e.x1, !.x1 = L - e.x0]
+Moved(g, s, te, tr) ==
+  CASE g = "exchange" -> Exchange(te, tr)
+    [] g = "shift" -> <<ShiftT(te, s), ShiftT(tr, s)>>
+    [] g = "rot" -> <<RotX(te, s), RotX(tr, s)>>
+    [] g = "refl" -> <<ReflX(te), ReflX(tr)>>
+IsElem(e) == e.x1 <= L /\ e.x0 >= 0 /\ e.x0 < e.x1 /\ (\E i \in 1..NP : Start(i) <= e.x0 /\ e.x1 <= Start(i + 1))
+OrbitClass(g, s, te, tr) ==
+  LET m == Moved(g, s, te, tr) IN
+  IF g \in {"exchange", "shift"} THEN g
+  ELSE g \o (IF SpaceRel(m[1], m[2]) # SpaceRel(te, tr) THEN ":changes-class" ELSE ":keeps-class")
+
+(* Split kinds used by C11 preserve the dyadic structure *)
 Halves(e, ax) ==
   IF ax = 0 THEN LET m == (e.t0 + e.t1) \div 2 IN {[e EXCEPT !.t1 = m], [e EXCEPT !.t0 = m]}
   ELSE LET m == (e.x0 + e.x1) \div 2 IN {[e EXCEPT !.x1 = m], [e EXCEPT !.x0 = m]}
